@@ -30,6 +30,9 @@ func init() {
 	mutant(&Mutant{Name: "c03-pre-newline-removed-in-advance", Property: "C03", File: "html/html.go",
 		Old: "\t\t\t// keep space after phrasing tags (<i>, <span>, ...) FontAwesome etc.\n", New: "\t\t\tif t.Hash == Pre {\n\t\t\t\tif next := tb.Peek(0); next.TokenType == html.TextToken && 0 < len(next.Data) && next.Data[0] == '\\n' {\n\t\t\t\t\tnext.Data = next.Data[1:]\n\t\t\t\t}\n\t\t\t}\n\t\t\t// keep space after phrasing tags (<i>, <span>, ...) FontAwesome etc.\n",
 		Rule: "R03.5", Construct: "rewritten ahead of its turn"})
+	mutant(&Mutant{Name: "c03-end-tag-omitted-before-template", Property: "C03", File: "html/html.go",
+		Old: "if next.TokenType == html.StartTagToken && (next.Hash == Script || next.Hash == Template) {\n\t\t\t\t\t\t\tomitEndTag = false", New: "if next.TokenType == html.StartTagToken && next.Hash == Style {\n\t\t\t\t\t\t\tomitEndTag = false",
+		Rule: "R03.11", Construct: "not in front of script or template"})
 	mutant(&Mutant{Name: "c03-empty-colgroup-dropped", Property: "C03", File: "html/html.go",
 		Old: "keepTag = next.TokenType != html.StartTagToken || next.Hash != Col", New: "keepTag = false",
 		Rule: "R03.9", Construct: "colgroup tag dropped"})
@@ -93,6 +96,7 @@ func runC03(c *Ctx) {
 	c.r032(pk, fd)
 	c.r038(pk, fd)
 	c.r0310(pk, fd)
+	c.r0311(pk, fd)
 	c.r033(pk, fd)
 	c.r034(pk, fd)
 }
@@ -772,4 +776,124 @@ func (c *Ctx) r0310(pk *packages.Package, fd *ast.FuncDecl) {
 		}
 	}
 	c.R.Floor(rule, "attributes dropped as duplicates of another attribute", n, 1)
+}
+
+// R03.11: an omitted end tag is not followed by a script-supporting element.
+func (c *Ctx) r0311(pk *packages.Package, fd *ast.FuncDecl) {
+	const rule = "R03.11"
+	c.R.Rule(rule, "script and template elements may appear wherever the content model lists `script-supporting elements`: between list items, table rows and cells, options, definition terms. An end tag that is omitted in front of one makes it a child of the element that was to be closed (`<ul><li>a</li><script>x</script></ul>` → the script inside the li). For every `omitEndTag = true` in html.(*Minifier).Minify: either the guards over the next token that enclose it — evaluated for a script and for a template start tag with the traits the table gives them — are false, or every path from the assignment to the test of omitEndTag passes a comparison of the next token's Hash with Script and Template")
+	info := pk.TypesInfo
+	g := c.graph(pk, fd)
+	h := c.loadHash(rule, "html")
+	m, _ := c.tableMap(rule, "html", "tagMap")
+	dep := c.P.Dep(load.ParseMod + "/html")
+	if h == nil || m == nil || dep == nil {
+		return
+	}
+	startTag := int64(-1)
+	if k, ok := dep.Types.Scope().Lookup("StartTagToken").(*types.Const); ok {
+		startTag, _ = constantInt64(k)
+	}
+	traitsOf := func(name string) int64 {
+		for _, e := range m.Entries {
+			kv, _ := e.Key.(int64)
+			if nm, ok := h.decode(kv); ok && nm == name {
+				tv, _ := e.Value.(int64)
+				return tv
+			}
+		}
+		return 0
+	}
+	mentionsOther := func(s, k string) bool {
+		for _, mm := range regexp.MustCompile(`([A-Za-z_][A-Za-z0-9_.\[\]()]*)\.Hash[!=]=`+k+`\b|\b`+k+`[!=]=([A-Za-z_][A-Za-z0-9_.\[\]()]*)\.Hash`).FindAllStringSubmatch(s, -1) {
+			if mm[1]+mm[2] != "t" {
+				return true
+			}
+		}
+		return false
+	}
+	// (the last test of the flag in source order: the one that decides whether the tag is written; an earlier test of
+	// the flag may belong to the veto itself)
+	var use []*flow.Node
+	for _, q := range g.Nodes {
+		if q.Kind == flow.KCond && strings.Contains(nospace(str(q.Expr)), "omitEndTag") {
+			if len(use) == 0 || q.Expr.Pos() > use[0].Expr.Pos() {
+				use = []*flow.Node{q}
+			}
+		}
+	}
+	veto := func(q *flow.Node) bool {
+		// the next token is known not to be a start tag at all
+		if (q.Kind == flow.KFalse || q.Kind == flow.KTrue) && q.Of != nil && q.Of.Kind == flow.KCond {
+			cs := nospace(str(q.Of.Expr))
+			// (the flag was just set: the false outcome of a plain test of it is infeasible on this path, and the only
+			// statements that clear it lie behind the comparison with script / template)
+			if cs == "omitEndTag" && q.Kind == flow.KFalse && (len(use) == 0 || q.Of != use[0]) {
+				return true
+			}
+			if mm := regexp.MustCompile(`^([A-Za-z_][A-Za-z0-9_.]*)\.TokenType([!=]=)html\.StartTagToken$|^html\.StartTagToken([!=]=)([A-Za-z_][A-Za-z0-9_.]*)\.TokenType$`).FindStringSubmatch(cs); mm != nil && mm[1]+mm[4] != "t" {
+				op := mm[2] + mm[3]
+				if op == "==" && q.Kind == flow.KFalse || op == "!=" && q.Kind == flow.KTrue {
+					return true
+				}
+			}
+		}
+		var s string
+		if q.Kind == flow.KCond {
+			s = nospace(str(q.Expr))
+		} else if as, ok := q.Stmt.(*ast.AssignStmt); ok && q.Kind == flow.KStmt && len(as.Rhs) == 1 {
+			s = nospace(str(as.Rhs[0]))
+		}
+		return s != "" && (mentionsOther(s, "Script") || mentionsOther(s, "Template"))
+	}
+	// the test of the flag
+	n := 0
+	for _, y := range g.Nodes {
+		rhs, ok := assignsTo(y, func(l ast.Expr) bool { return str(l) == "omitEndTag" })
+		if !ok || str(rhs) != "true" {
+			continue
+		}
+		n++
+		// enclosing guards over `next`
+		excluded := true
+		sawGuard := false
+		for _, el := range []string{"script", "template"} {
+			env := map[string]int64{"next.TokenType": startTag, "next.Hash": h.toHash(el), "next.Traits": traitsOf(el)}
+			falseSomewhere := false
+			for p := c.P.Parent(y.Stmt); p != nil; p = c.P.Parent(p) {
+				if _, isFor := p.(*ast.ForStmt); isFor {
+					continue
+				}
+				if _, isFn := p.(*ast.FuncDecl); isFn {
+					break
+				}
+				ifs, ok := p.(*ast.IfStmt)
+				if !ok || ifs.Body.Pos() > y.Stmt.Pos() || y.Stmt.End() > ifs.Body.End() || !strings.Contains(str(ifs.Cond), "next.") {
+					continue
+				}
+				sawGuard = true
+				if v, ok := evalIntExpr(info, ifs.Cond, env); ok && v == 0 {
+					falseSomewhere = true
+				}
+			}
+			if !falseSomewhere {
+				excluded = false
+			}
+		}
+		construct := fmt.Sprintf("html.Minifier.Minify/omitEndTag = true#%d not in front of script or template", n)
+		if sawGuard && excluded {
+			c.R.OK(rule, construct, c.pos(y.Stmt), "the look-ahead guard is false for a script / template start tag")
+			continue
+		}
+		p := g.Path(flow.Search{From: []*flow.Node{y}, Goal: func(q *flow.Node) bool {
+			for _, u := range use {
+				if u == q {
+					return true
+				}
+			}
+			return false
+		}, Avoid: veto})
+		c.R.Check(p == nil && len(use) > 0, rule, construct, c.pos(y.Stmt), "a test of the next element against script / template lies on every path to the use of the flag", "the end tag is omitted whatever follows: a script or template element in place of the next sibling (`<ul><li>a</li><script>x</script></ul>`) becomes a child of the element that should have been closed: "+pathStr(c, g, p))
+	}
+	c.R.Floor(rule, "omitEndTag = true assignments", n, 4)
 }
